@@ -13,14 +13,17 @@ def run(ctx):
         r = ctx.model_check("Resolver/RetryModel.tla", cfgname, workers=8, timeout=600)
         if r.violation:
             raise vlib.MachineryError("RetryModel.tla violates %s" % r.violation)
+    lat = {"module": "GenLatency.tla", "cfg": "GenLatency.cfg", "name": "latency"}
     if ctx.quick:
-        gens = [{"module": "Gen_C07.tla", "cfg": "Gen_C07_quick.cfg", "name": "bfs"}]
+        gens = [{"module": "Gen_C07.tla", "cfg": "Gen_C07_quick.cfg", "name": "bfs"}, lat]
     else:
         gens = [{"module": "Gen_C07.tla", "cfg": "Gen_C07_thorough.cfg", "name": "bfs"},
-                {"module": "Gen_C07.tla", "cfg": "Gen_C07_sim.cfg", "name": "sim", "simulate": 2000, "depth": 14}]
+                {"module": "Gen_C07.tla", "cfg": "Gen_C07_sim.cfg", "name": "sim", "simulate": 2000, "depth": 14}, lat]
     simlib.engine_check(ctx, gens, FACETS, labels=LABELS, selftests=mutators.RETRY)
     extra(ctx)
 
 
 def extra(ctx):
-    pass
+    # event-thread half ("no application action is needed at all"): Threads/EvLoop specs + real event thread
+    import c07_thr
+    c07_thr.run_threaded(ctx)
